@@ -15,10 +15,11 @@
    get_hcables = the cables of get_hwires (any heap, any selection); the narrow selections INSIDE /
    OUTSIDE / BOTH from pin / wire / port / cable starts; pins of a wire; the full statement C12_full
    with its proof C12_full_holds, and C12_full_nodup_holds ("each once" in every conjunct). *)
-From Coq Require Import List Arith Bool.
+From Coq Require Import List Arith NArith Bool.
 From SV Require Import Base.Base IR.State Proofs.Inv1a Proofs.Inv2a Hier.Paths Hier.Enum Hier.Trace Hier.Conn
   Proofs.HierClosure Proofs.HierTrace Proofs.HierNarrow Proofs.HierTraceEx
-  Proofs.HierTracePort Proofs.HierTraceCable Proofs.HierCables Proofs.HierNarrowStarts Proofs.HierCablesEx.
+  Proofs.HierTracePort Proofs.HierTraceCable Proofs.HierCables Proofs.HierNarrowStarts Proofs.HierCablesEx
+  Hier.TraceRoots Proofs.HierRoots.
 Import ListNotations.
 
 (* ---- the generic closure: a work list with a visited set over a finite universe returns exactly
@@ -359,3 +360,226 @@ Definition C12_full_nodup : Prop := forall s t,
 Theorem C12_full_nodup_holds : C12_full_nodup.
 Proof. exact C12_full_nodup_proof. Qed.
 Print Assumptions C12_full_nodup_holds.
+
+(* ==== the remaining roots (Hier/TraceRoots.v, Proofs/HierRoots.v): a COLLECTION of roots, each a
+        hierarchical reference, a netlist, a library, a definition, an instance or a plain port / cable /
+        pin / wire; `recursive`; `patterns` (pat = the predicate "some pattern selects this name").
+        An entry of the work list is (marked bypass?, reference). ==== *)
+
+(* in ANY heap, for every selection, recursive flag, patterns and collection of roots, an answer never
+   repeats a reference *)
+Theorem C12_roots_hwires_no_duplicates : forall s x r pat usum roots l,
+  get_hwires_roots s x r pat usum roots = Some l -> NoDup l.
+Proof. exact get_hwires_roots_nodup. Qed.
+
+Theorem C12_roots_hcables_no_duplicates : forall s x r pat usum roots l,
+  get_hcables_roots s x r pat usum roots = Some l -> NoDup l.
+Proof. exact get_hcables_roots_nodup. Qed.
+
+Theorem C12_roots_hpins_no_duplicates : forall s r pat roots l,
+  get_hpins_roots s r pat roots = Some l -> NoDup l.
+Proof. exact get_hpins_roots_nodup. Qed.
+
+Theorem C12_roots_hports_no_duplicates : forall s r pat roots l,
+  get_hports_roots s r pat roots = Some l -> NoDup l.
+Proof. exact get_hports_roots_nodup. Qed.
+
+(* netlist root, INSIDE (the default selection), recursive: every hierarchical wire of the design below
+   the top instance (the enumeration of C11) whose name relative to the top the patterns select, each
+   once. With the default pattern that is every hierarchical wire that has a name. *)
+Theorem C12_roots_netlist_recursive : forall s n t pat usum,
+  Inv1a s -> WFk s -> acyclic s ->
+  kind_of s n = Some KNetlist -> top s n = Some t -> is_valid s [t] = true ->
+  exists l, get_hwires_roots s SInside true pat usum [RObj (QId n)] = Some l /\ NoDup l /\
+    (forall h, In h l <->
+       (exists w c x p, h = w :: c :: x :: p /\ is_rpath s t (x :: p) /\
+                        In c (cables_of s x) /\ In w (kids s RWires c)) /\
+       name_ok s pat (0, h) = true).
+Proof. exact get_hwires_roots_netlist_recursive. Qed.
+
+(* netlist root, any `recursive`: the model of the collection agrees with the netlist query of C11 *)
+Theorem C12_roots_netlist_is_C11_enumeration : forall s n t r pat usum l0,
+  kind_of s n = Some KNetlist -> top s n = Some t -> is_valid s [t] = true ->
+  get_hwires_netlist s n r = Some l0 ->
+  exists l, get_hwires_roots s SInside r pat usum [RObj (QId n)] = Some l /\ NoDup l /\
+            (forall h, In h l <-> In h l0 /\ name_ok s pat (0, h) = true).
+Proof. exact get_hwires_roots_netlist_INSIDE. Qed.
+
+(* a reference to a hierarchical instance that goes through the name map (handed in as a reference),
+   INSIDE, in any heap: the wires of its cell (and below it when recursive) whose name RELATIVE TO
+   THAT INSTANCE the patterns select *)
+Theorem C12_roots_instance_reference_inside : forall s r pat usum it rest l0,
+  is_valid s (it :: rest) = true -> kind_of s it = Some KInstance ->
+  hwires_below s r (it :: rest) = Some l0 ->
+  exists l, get_hwires_entries s SInside r pat usum [(false, it :: rest)] = Some l /\ NoDup l /\
+            (forall h, In h l <-> In h l0 /\ name_ok s pat (length rest, h) = true).
+Proof. exact get_hwires_entries_INSIDE_href. Qed.
+
+(* selection ALL over any collection: what the entries yield directly, and the connectivity classes of
+   the wires on either side of every pin they hand to the closure - each once. ONE closure serves the
+   whole collection; patterns play no part. *)
+Theorem C12_roots_all_collection : forall s t,
+  Inv1a s -> WFk s -> WFc s ->
+  forall n U r pat es y st nm,
+  acyclic s -> top s n = Some t -> all_hwires s n = Some U ->
+  collect (hw_entry s SAll r) es = Some (y, st, nm) ->
+  (forall a, In a st -> hpin_occ s t a) ->
+  exists l, get_hwires_entries s SAll r pat (pin_weight s U) es = Some l /\ NoDup l /\
+            (forall b, In b l <-> In b y \/
+                                  exists a x, In a st /\ In x (nb_sel s SAll a) /\ Conn.conn s t x b).
+Proof. exact get_hwires_entries_ALL. Qed.
+
+(* union law: searching two collections at once = the union of the two answers *)
+Theorem C12_roots_all_union : forall s t,
+  Inv1a s -> WFk s -> WFc s ->
+  forall n U r pat es1 es2 y1 st1 nm1 y2 st2 nm2,
+  acyclic s -> top s n = Some t -> all_hwires s n = Some U ->
+  collect (hw_entry s SAll r) es1 = Some (y1, st1, nm1) -> (forall a, In a st1 -> hpin_occ s t a) ->
+  collect (hw_entry s SAll r) es2 = Some (y2, st2, nm2) -> (forall a, In a st2 -> hpin_occ s t a) ->
+  exists l1 l2 l,
+    get_hwires_entries s SAll r pat (pin_weight s U) es1 = Some l1 /\
+    get_hwires_entries s SAll r pat (pin_weight s U) es2 = Some l2 /\
+    get_hwires_entries s SAll r pat (pin_weight s U) (es1 ++ es2) = Some l /\ NoDup l /\
+    (forall b, In b l <-> In b l1 \/ In b l2).
+Proof. exact get_hwires_entries_ALL_union. Qed.
+
+(* a hierarchical instance (marked or not: an Instance / Definition / Library root reaches it marked, a
+   reference or the netlist unmarked), selection ALL: every wire at or below it, and the nets of the
+   wires attached - inside or outside - to every pin at or below it; ps = the instance paths at or
+   below it *)
+Theorem C12_roots_all_instance : forall s t,
+  Inv1a s -> Inv2a s -> WFk s -> WFc s -> is_root s t ->
+  forall n U r pat bp x p,
+  acyclic s -> top s n = Some t -> all_hwires s n = Some U -> is_rpath s t (x :: p) ->
+  exists l ps, walk s keep_all (depth_fuel s) (x :: p) = Some ps /\
+    (forall q, In q ps <-> HierEnum.ext s keep_all (x :: p) q) /\
+    get_hwires_entries s SAll r pat (pin_weight s U) [(bp, x :: p)] = Some l /\ NoDup l /\
+    (forall b, In b l <->
+       (exists q, In q ps /\ In b (hwires_at s q)) \/
+       (exists q a y, In q ps /\ In a (hpins_at s q) /\ In y (nb_sel s SAll a) /\ Conn.conn s t y b)).
+Proof. exact get_hwires_ALL_instance. Qed.
+
+(* the hypotheses are satisfiable: ex3 (a two-bit port crossed by two nets), the sub-instance as a
+   marked entry hands two pin occurrences to the closure; the netlist-root hypotheses hold on ex3 *)
+Example C12_roots_hypotheses_satisfiable_example :
+  exists s t n U x p,
+    Inv1a s /\ Inv2a s /\ WFk s /\ WFc s /\ acyclic s /\ is_root s t /\ top s n = Some t /\
+    all_hwires s n = Some U /\ is_rpath s t (x :: p) /\ p <> [] /\
+    exists y st, collect (hw_entry s SAll false) [(true, x :: p)] = Some (y, st, []) /\ length st = 2 /\
+                 (forall a, In a st -> hpin_occ s t a).
+Proof. exact roots_hypotheses_satisfiable. Qed.
+
+Example C12_roots_netlist_hypotheses_satisfiable_example :
+  kind_of ex3 0 = Some KNetlist /\ top ex3 0 = Some 14 /\ is_valid ex3 [14] = true /\
+  Inv1a ex3 /\ WFk ex3 /\ acyclic ex3.
+Proof. exact netlist_root_hypotheses_satisfiable. Qed.
+
+(* concrete answers on ex3 (vm_compute, Proofs/HierRoots.v): netlist root recursive / flat, a pattern
+   honoured from the netlist and ignored from an Instance root (what the code does: finding C13-K6),
+   an instance reference OUTSIDE, a collection of three roots *)
+Example C12_roots_example_netlist :
+  get_hwires_roots ex3 SInside true pat_any ex3_u [RObj (QId 0)]
+  = Some [[12; 11; 14]; [13; 11; 14]; [7; 6; 10; 14]; [8; 6; 10; 14]].
+Proof. exact ex3_roots_netlist_recursive. Qed.
+
+Example C12_roots_example_pattern_honoured_from_netlist :
+  get_hwires_roots ex3 SInside true (pat_exact name_1) ex3_u [RObj (QId 0)] = Some [[13; 11; 14]].
+Proof. exact ex3_roots_netlist_pattern. Qed.
+
+Example C12_roots_example_pattern_ignored_from_instance :
+  get_hwires_roots ex3 SInside false (pat_exact name_1) ex3_u [RObj (QId 10)]
+  = Some [[7; 6; 10; 14]; [8; 6; 10; 14]].
+Proof. exact ex3_roots_instance_ignores_pattern. Qed.
+
+Example C12_roots_example_collection :
+  exists l, get_hwires_roots ex3 SInside true pat_any ex3_u [RHref [10; 14]; RObj (QId 0); RObj (QId 7)] = Some l /\
+            length l = 4 /\ NoDup l.
+Proof. exact ex3_roots_collection. Qed.
+
+(* the collection model restricted to ONE reference that is not an instance is the single-reference
+   model of Hier/Trace.v (equality of the answers, any heap, any selection / patterns / mark): every
+   theorem above about wire / pin / port / cable starts speaks about get_hwires_roots [RHref ..] too *)
+Theorem C12_roots_single_reference_agrees : forall s x r pat usum obj,
+  head_not_instance s obj ->
+  get_hwires_roots s x r pat usum [RHref obj] = get_hwires s x r usum obj.
+Proof. exact get_hwires_roots_href_single. Qed.
+
+Theorem C12_roots_all_from_wire_reference : forall s t,
+  Inv1a s -> Inv2a s -> WFk s -> WFc s -> is_root s t ->
+  forall n U pat x, acyclic s -> top s n = Some t -> all_hwires s n = Some U -> hwire_occ s t x ->
+  exists l, get_hwires_roots s SAll false pat (pin_weight s U) [RHref x] = Some l /\
+            (forall b, In b l <-> Conn.conn s t x b).
+Proof. exact get_hwires_roots_ALL_wire. Qed.
+
+(* ---- YIELD ORDER where the design determines it (one netlist / instance-reference root through the
+        name map: get_ordered, compared with the implementation as a LIST on every run). The pattern
+        loop yields each reference once, and exactly the registered references whose name some pattern
+        selects - the ordered answer has the elements of the (unordered) collection model ---- *)
+Theorem C12_order_pattern_loop_no_duplicates : forall ab mt pats regs,
+  NoDup (pattern_loop ab mt pats regs).
+Proof. exact pattern_loop_nodup. Qed.
+
+Theorem C12_order_pattern_loop_elements : forall ab mt pats regs h,
+  In h (pattern_loop ab mt pats regs) <->
+  exists nm, In (nm, h) regs /\ pat_sel ab mt pats nm = true.
+Proof. exact pattern_loop_In. Qed.
+
+Theorem C12_order_answer_elements : forall s k r ab mt pats obj l,
+  get_ordered s k r ab mt pats obj = Some (Some l) -> is_valid s obj = true ->
+  exists regs nms, registrations s k r obj = Some regs /\
+    all_some (map (rel_name s (pred (length obj))) regs) = Some nms /\ NoDup l /\
+    (forall h, In h l <-> exists nm, In (nm, h) (combine nms regs) /\ pat_sel ab mt pats nm = true).
+Proof. exact get_ordered_elements. Qed.
+
+Example C12_order_example :
+  get_ordered ex3 OWires true (fun _ => false) (fun _ _ => true) [[42%N]] [14]
+  = Some (Some [[12; 11; 14]; [13; 11; 14]; [7; 6; 10; 14]; [8; 6; 10; 14]]).
+Proof. exact ex3_ordered. Qed.
+
+(* an Instance handed in as a plain element (INSIDE, not recursive): the wires of its cell at every
+   occurrence of the instance - the valid instance paths ending in it, below the top instance of
+   whichever netlist (the occurrences of C11_hrefs_of_instances) - each once; whatever the patterns *)
+Theorem C12_roots_instance_element : forall s x pat usum,
+  Inv1a s -> Inv2a s -> WFk s -> acyclic s -> kind_of s x = Some KInstance ->
+  exists l, get_hwires_roots s SInside false pat usum [RObj (QId x)] = Some l /\ NoDup l /\
+    (forall h, In h l <-> exists p, (exists t, is_path s t p) /\ hd_error p = Some x /\ In h (hwires_at s p)).
+Proof. exact get_hwires_roots_instance_element. Qed.
+
+Example C12_roots_instance_element_hypotheses_satisfiable_example :
+  Inv1a ex3 /\ Inv2a ex3 /\ WFk ex3 /\ acyclic ex3 /\ kind_of ex3 10 = Some KInstance /\
+  get_hwires_roots ex3 SInside false pat_any ex3_u [RObj (QId 10)] = Some [[7; 6; 10; 14]; [8; 6; 10; 14]].
+Proof. exact ex3_instance_element_hypotheses. Qed.
+
+(* ---- kept as a statement, not proved: (a) from a hierarchical instance with selection ALL the answer is
+        saturated - it is exactly the union of the connectivity classes of the wires at or below the
+        instance and of the wires attached outside to its own pins (C12_roots_all_instance gives the
+        answer as "wires at or below + classes of the wires on the pins at or below"; missing: every
+        crossing of a wire at or below goes through a pin at or below, i.e. hpins_of_hwire of those wires
+        lie in the start list); (b) Definition / Library roots, and Instance roots with `recursive`, tied to C11's occurrence
+        theorem (proved: the Instance root, not recursive - C12_roots_instance_element); (c) the yield ORDER (not determined by the design
+        for most roots: hpin_search and the expansion of Definition / Instance roots are Python sets). ---- *)
+Definition C12_roots_full : Prop := forall s t,
+  Inv1a s -> Inv2a s -> WFk s -> WFc s -> is_root s t ->
+  forall n U r pat bp x p,
+  acyclic s -> top s n = Some t -> all_hwires s n = Some U -> is_rpath s t (x :: p) ->
+  exists l, get_hwires_entries s SAll r pat (pin_weight s U) [(bp, x :: p)] = Some l /\ NoDup l /\
+    (forall b, In b l <->
+       (exists q w, HierEnum.ext s keep_all (x :: p) q /\ In w (hwires_at s q) /\ Conn.conn s t w b) \/
+       (exists a y, In a (hpins_at s (x :: p)) /\ In y (nb_sel s SAll a) /\ Conn.conn s t y b)).
+Print Assumptions C12_roots_hwires_no_duplicates.
+Print Assumptions C12_roots_hcables_no_duplicates.
+Print Assumptions C12_roots_hpins_no_duplicates.
+Print Assumptions C12_roots_hports_no_duplicates.
+Print Assumptions C12_roots_netlist_recursive.
+Print Assumptions C12_roots_netlist_is_C11_enumeration.
+Print Assumptions C12_roots_instance_reference_inside.
+Print Assumptions C12_roots_all_collection.
+Print Assumptions C12_roots_all_union.
+Print Assumptions C12_roots_all_instance.
+Print Assumptions C12_roots_hypotheses_satisfiable_example.
+Print Assumptions C12_roots_example_collection.
+Print Assumptions C12_roots_single_reference_agrees.
+Print Assumptions C12_roots_all_from_wire_reference.
+Print Assumptions C12_order_pattern_loop_elements.
+Print Assumptions C12_order_answer_elements.
+Print Assumptions C12_roots_instance_element.
